@@ -270,6 +270,8 @@ def run(ctx):
     for msg in check_absent():
         part.violation("absent", msg, {"kind": "absent"})
     part.count("malformed_cases", 2)
+    from .. import callforms              # pylint: disable=import-outside-toplevel
+    part.merge(callforms.explore("C12"))
     cnt = part.counters
     total = cnt.get("valid_cases", 0) + cnt.get("malformed_cases", 0)
     coverage = {
@@ -300,6 +302,9 @@ def run(ctx):
 
 
 def replay(case):
+    if case.get("kind") == "callform":
+        from .. import callforms          # pylint: disable=import-outside-toplevel
+        return callforms.replay(case)
     if case["kind"] == "valid":
         return [m for _c, m in check_valid(case["numeral"], case["unit"], case["space"])]
     if case["kind"] == "malformed":
